@@ -1,33 +1,34 @@
 #!/bin/bash
+V="${VERIF_ROOT:-$(cd "$(dirname "${BASH_SOURCE[0]}")/.." && pwd)}"; export VERIF_ROOT="$V"
 # build_model.sh : (re)build the Coq development and the extracted OCaml model driver
 set -e
-cd /verif/coq
+cd $V/coq
 [ -f Makefile ] || coq_makefile -f _CoqProject -o Makefile >/dev/null
 # only what extraction needs: a broken property proof must not take the model driver down with it
-timeout 1800 make -j16 Extract.vo > /verif/coq/make.log 2>&1 || { tail -20 /verif/coq/make.log; exit 1; }
-mkdir -p /verif/build/model
-cd /verif/build/model
-if [ ! -f model_driver ] || [ /verif/coq/model.ml -nt model_driver ] || [ /verif/harness/model_driver.ml -nt model_driver ] || [ /verif/coq/Dispatch.v -nt model_driver ] || [ /verif/harness/hist_model.ml -nt model_driver ] || [ /verif/harness/fmt_model.ml -nt model_driver ] || [ /verif/harness/fmt_engine.ml -nt model_driver ]; then
-  cp /verif/coq/model.ml /verif/coq/model.mli /verif/harness/model_driver.ml .
-  python3 /verif/harness/gen_fn_table.py fn_table.ml
+timeout 1800 make -j16 Extract.vo > $V/coq/make.log 2>&1 || { tail -20 $V/coq/make.log; exit 1; }
+mkdir -p $V/build/model
+cd $V/build/model
+if [ ! -f model_driver ] || [ $V/coq/model.ml -nt model_driver ] || [ $V/harness/model_driver.ml -nt model_driver ] || [ $V/coq/Dispatch.v -nt model_driver ] || [ $V/harness/hist_model.ml -nt model_driver ] || [ $V/harness/fmt_model.ml -nt model_driver ] || [ $V/harness/fmt_engine.ml -nt model_driver ]; then
+  cp $V/coq/model.ml $V/coq/model.mli $V/harness/model_driver.ml .
+  python3 $V/harness/gen_fn_table.py fn_table.ml
   ocamlfind ocamlopt -O3 -w -a model.mli model.ml fn_table.ml model_driver.ml -o model_driver 2>/dev/null || ocamlfind ocamlopt -w -a model.mli model.ml fn_table.ml model_driver.ml -o model_driver
-  cp /verif/harness/hist_model.ml .
+  cp $V/harness/hist_model.ml .
   ocamlfind ocamlopt -w -a model.mli model.ml hist_model.ml -o hist_model
-  cp /verif/harness/fmt_model.ml .
+  cp $V/harness/fmt_model.ml .
   ocamlfind ocamlopt -w -a model.mli model.ml fmt_model.ml -o fmt_model
-  cp /verif/harness/fmt_engine.ml .
+  cp $V/harness/fmt_engine.ml .
   ocamlfind ocamlopt -w -a model.mli model.ml fmt_engine.ml -o fmt_engine
 fi
 # C17: the normalisation model over the regenerated tables (own target: a failure here only affects C17)
-if [ -f /verif/coq/Gen/UniTables.v ]; then
-  cd /verif/coq
-  if timeout 1800 make -j16 ExtractUni.vo > /verif/coq/make_uni.log 2>&1; then
-    cd /verif/build/model
-    if [ ! -f uni_model ] || [ /verif/coq/unimodel.ml -nt uni_model ] || [ /verif/harness/uni_model.ml -nt uni_model ]; then
-      cp /verif/coq/unimodel.ml /verif/coq/unimodel.mli /verif/harness/uni_model.ml .
+if [ -f $V/coq/Gen/UniTables.v ]; then
+  cd $V/coq
+  if timeout 1800 make -j16 ExtractUni.vo > $V/coq/make_uni.log 2>&1; then
+    cd $V/build/model
+    if [ ! -f uni_model ] || [ $V/coq/unimodel.ml -nt uni_model ] || [ $V/harness/uni_model.ml -nt uni_model ]; then
+      cp $V/coq/unimodel.ml $V/coq/unimodel.mli $V/harness/uni_model.ml .
       ocamlfind ocamlopt -w -a unimodel.mli unimodel.ml uni_model.ml -o uni_model
     fi
   else
-    rm -f /verif/build/model/uni_model
+    rm -f $V/build/model/uni_model
   fi
 fi
